@@ -4,6 +4,7 @@ package main
 // C04 (spec-conformant switch messages), C12 (parsed messages own their memory).
 
 import (
+	"strings"
 	"fmt"
 	"net"
 
@@ -19,7 +20,32 @@ func init() {
 }
 
 // switchMessage builds a switch-originated message with the library's own types
+// helloElems: a hello whose element list was assigned by hand - version bitmaps of 0..4 words
+func (g *G) helloElems() (*common.Hello, string, uint32) {
+	h, _ := common.NewHello(4)
+	h.Elements = []common.HelloElem{}
+	var ets []string
+	for k := g.r.Geom(2, 6); k > 0; k-- {
+		v := common.NewHelloElemVersionBitmap()
+		v.Bitmaps = []uint32{}
+		nb := g.r.Intn(5)
+		ws := make([]string, nb)
+		for i := range ws {
+			x := uint32(g.r.Bits(32))
+			v.Bitmaps = append(v.Bitmaps, x)
+			ws[i] = fmt.Sprint(x)
+		}
+		h.Elements = append(h.Elements, v)
+		ets = append(ets, "["+strings.Join(ws, "; ")+"]")
+	}
+	return h, "[" + strings.Join(ets, "; ") + "]", h.Header.Xid
+}
+
 func (g *G) switchMessage() (util.Message, string) {
+	if g.r.Intn(16) == 0 {
+		h, _, _ := g.helloElems()
+		return h, "hello/elements"
+	}
 	switch g.r.Intn(12) {
 	case 0:
 		f := of.NewFlowRemoved()
@@ -274,6 +300,25 @@ func runC07(seed uint64, tier, dir, replay string) error {
 	for _, n := range []int{0, 1, 2, 3, 4, 5, 6, 7} {
 		add("short", "short", rng.Bytes(n))
 	}
+	// every multipart type (0..16 and experimenter) as request and reply, with bodies of several sizes
+	for _, ty := range []byte{18, 19} {
+		for mt := 0; mt <= 17; mt++ {
+			m := mt
+			if mt == 17 {
+				m = 0xffff
+			}
+			for _, bl := range []int{0, 4, 8, 24, 64, 200} {
+				b := make([]byte, 16+bl)
+				copy(b[16:], rng.Bytes(bl))
+				if bl >= 24 && rng.Bool() { // a plausible record length in front
+					b[16], b[17] = byte(bl>>8), byte(bl)
+				}
+				b[0], b[1], b[2], b[3] = 4, ty, byte(len(b)>>8), byte(len(b))
+				b[8], b[9] = byte(m>>8), byte(m)
+				add("multipart-type-sweep", "multipart-type-sweep", b)
+			}
+		}
+	}
 	for i := 0; i < nbase; i++ {
 		m, kind := g.anyMessage()
 		b, ok := marshalSafe(m)
@@ -374,7 +419,7 @@ func runC07(seed uint64, tier, dir, replay string) error {
 		o.Meta["direct_violations"] = direct
 	}
 	o.Meta["outcomes"] = outcomes
-	o.Meta["rule"] = "the parser entry point on: all 256 message-type bytes on 8- and 64-byte frames; inputs of 0..7 bytes; for random valid frames of every kind (see C05) the frame itself, its truncation at every offset (sampled above 160 bytes), 16-bit positions in the first 96 bytes set to 0 / 1 / 0xffff / +-1 / +-8 / a random byte, and structure-blind mutations; every 16-bit position at an even offset of whole frames set to 0 and to 0xffff (sampled above 260 positions); packet-outs carrying a conntrack action around one or two nested actions of every kind, every 16-bit position set to 0, 8 and 0xffff; frames at the 64 KiB limit for every list decoder (multipart records of each type with the length field at 65535 and buffers of 65535 and 65600 bytes, instructions, actions, match fields, buckets, hello elements, ports, tlv maps, a nested bundle); packet-ins whose IPv6 extension headers carry Hdr Ext Len 0/1/31/254/255 on packets long enough to hold them; each parse runs in a worker subprocess under a 3 s wall-clock limit, a 1 GiB heap limit and an allocation budget of 1 KiB per input byte + 16 MiB; distinct by kind x input kind x outcome x size bucket"
+	o.Meta["rule"] = "the parser entry point on: all 256 message-type bytes on 8- and 64-byte frames; inputs of 0..7 bytes; multipart requests and replies of every multipart type 0..16 and experimenter with bodies of 0..200 bytes; for random valid frames of every kind (see C05) the frame itself, its truncation at every offset (sampled above 160 bytes), 16-bit positions in the first 96 bytes set to 0 / 1 / 0xffff / +-1 / +-8 / a random byte, and structure-blind mutations; every 16-bit position at an even offset of whole frames set to 0 and to 0xffff (sampled above 260 positions); packet-outs carrying a conntrack action around one or two nested actions of every kind, every 16-bit position set to 0, 8 and 0xffff; frames at the 64 KiB limit for every list decoder (multipart records of each type with the length field at 65535 and buffers of 65535 and 65600 bytes, instructions, actions, match fields, buckets, hello elements, ports, tlv maps, a nested bundle); packet-ins whose IPv6 extension headers carry Hdr Ext Len 0/1/31/254/255 on packets long enough to hold them; each parse runs in a worker subprocess under a 3 s wall-clock limit, a 1 GiB heap limit and an allocation budget of 512 bytes per input byte + 256 KiB; distinct by kind x input kind x outcome x size bucket"
 	return o.Close()
 }
 
